@@ -512,6 +512,7 @@ def k_rules(F, ctx):
                                + ": the stale tag keeps rejecting (or admitting) jobs", F.loc(fid))
 
     ctx.run("C05-K9", "a slot refreshed on some paths only is removed on the others (presence law) or its guard is constant per route (reasoned table)", k9, floor=15)
+    ctx.run("C05-K10", "a solution context over another set of routes starts from an empty SolutionState", k10_fresh_solution_state, floor=5)
     ctx.run("C05-K4", "every RouteState slot a FeatureState writes per route/insertion is also refreshed by its accept_solution_state (actor-only slots exempt)", k4, floor=12)
     ctx.run("C05-K5", "every RouteState slot written by accept_route_state is refreshed by accept_insertion (actor-only exempt)", k5, floor=12)
     ctx.run("C05-K5b", "per-insertion refresh is unconditional or guarded only by a dimension test it depends on", k5b, floor=12)
@@ -677,6 +678,25 @@ def r2_latest_arrival_recurrence(F, r):
         chk("unbounded shortcut", others == [(acc, (".0",))], "the window end is used directly only while the CARRIED latest time is unbounded (MAX)",
             "the `no limit yet` shortcut tests something other than the latest time carried from the following activity: with an open shift end the latest arrivals of "
             "earlier activities ignore the windows of later ones (infeasible insertions pass)", st.get("ln"))
+    # whatever form the shortcut takes (a comparison here, a flag computed elsewhere): the branch that decides whether estimate_arrival is consulted must depend on the CARRIED triple
+    arr_b = [bi for bi, t in mir.calls(fn) if t is arr][0]
+    for sb, bb in enumerate(fn["bbs"]):
+        tt = bb["t"]
+        if tt["k"] != "switch" or not mir.dominates(fn, sb, arr_b) or sb == arr_b:
+            continue
+        edges = [tb for _, tb in tt["tg"]] + [tt["else"]]
+        skipping = [e for e in edges if arr_b not in mir.reach(fn, [e])]
+        if not skipping:
+            continue
+        leaves, _ = mir.deep_leaves(fn, tt["o"])
+        # a per-ACTIVITY decision (the depot ends carry no job: `act.job.is_none()`) is not a shortcut over the recurrence; a decision that reads neither the carried
+        # triple nor the activity is a per-route constant
+        carried = any(k == "arg" and v in (2, 3) for k, v, p_ in leaves)
+        if skipping and all(not set(mir.ret_blocks(fn)) & mir.reach(fn, [e]) for e in skipping):
+            continue        # the skipping edge never returns (panic)
+        chk("shortcut depends on the carried time", carried, "every decision to bypass estimate_arrival reads the carried (latest time, location, waiting) triple or the activity itself",
+            "the decision to use the activity's own window end instead of the propagated latest arrival does not depend on what is carried from the following activities "
+            "(a per-route constant such as `the shift has no end`): with an open shift end the latest arrivals of earlier activities ignore the windows of later ones", tt.get("ln") or arr["ln"])
     # waiting: pushes an Add(acc.2, max(Sub(tw.start, arrival), 0))
     ok = False
     for _, t in mir.calls(fn):
@@ -818,6 +838,33 @@ def i1_insert_then_accept(F, r):
             else:
                 r.fail(util.short_fn(root), "tour mutated and a path reaches return without goal.accept_route_state/accept_insertion: "
                                             "evaluation of the next sub-job / next insertion reads stale caches", F.loc(cfid, t["ln"]))
+
+
+def k10_fresh_solution_state(F, r):
+    """per-solution aggregates (SolutionState slots) are functions of the routes of THEIR solution: a SolutionContext assembled over another set of routes (partial contexts of
+    the decomposition, contexts built from a problem / an existing solution) must start from an empty state — only `SolutionContext::deep_copy` (same routes) copies it"""
+    n = 0
+    for fid, fn in sorted(F.fns.items()):
+        if "::promoted[" in fid:
+            continue
+        for bi, si, st in mir.stmts(fn):
+            rv = st["r"]
+            if rv["k"] != "agg" or not rv.get("n", "").endswith("heuristics::context::SolutionContext#SolutionContext") or "state" not in (rv.get("fs") or []):
+                continue
+            n += 1
+            name = util.short_fn(F.root_of(fid))
+            leaves, crossed = mir.deep_leaves(fn, rv["o"][rv["fs"].index("state")])
+            copied = [(k, p) for k, v, p in leaves if k in ("arg", "local") and "state" in [str(x) for x in p]]
+            fresh = any(c.endswith(("Default::default", "SolutionState::default", "::new")) for c in crossed) and not copied
+            if F.root_of(fid).endswith("SolutionContext::deep_copy"):
+                r.ok(f"{name}: state", "copy of the same routes: aggregates stay valid")
+            elif fresh:
+                r.ok(f"{name}: state", "starts from an empty SolutionState (aggregates are recomputed by accept_solution_state)")
+            else:
+                r.fail(f"{name}: state", "a solution context over a DIFFERENT set of routes is given a copy of another solution's SolutionState: its cached per-solution aggregates "
+                       "(work balance, tour order violations, footprint ...) describe other tours, so fitness is no longer a function of the context's own tours", F.loc(fid, st.get("ln")))
+    if n < 5:
+        raise AnchorError(f"only {n} SolutionContext constructions found (6 counted on the pinned tree)")
 
 
 def run(ctx):
